@@ -38,7 +38,7 @@ def C01(tier):
     jobs += [hq("starve", 2 * m, first=0, ncpu=2), hq("starve", 2 * m, first=10, ncpu=4), hq("starve", 1 * m, first=20, ncpu=1)]
     jobs += [hq("default", 5 * m, first=900, flavor="asan", scale=30, timeout=600),
              hq("wl", 6 * m, first=920, flavor="asan", scale=50, timeout=600), hq("hier", 5 * m, first=940, flavor="asan", scale=40, timeout=600)]
-    jobs += [hw(32 * m), hw(32 * m, flavor="asan")]
+    jobs += [hw(32 * min(m, 2)), hw(32 * min(m, 2), flavor="asan")]
     # legacy queues whose target queue is changed (dispatch_set_target_queue) while they are in use
     jobs += spread(hq, "retarget", 16 * m, 2) + [hq("retarget", 6 * m, first=100, ncpu=4), hq("retarget", 5 * m, first=200, flavor="asan", scale=40, timeout=600)]
     if tier == "thorough":
@@ -73,7 +73,8 @@ def C02(tier):
              hq("serial", 10 * m, first=300, ncpu=4)]
     jobs += spread(hq, "pingpong", 24 * m, 3, )
     jobs += spread(hq, "mixed", 16 * m, 2)
-    jobs += [hq("window", 16 * m, first=0), hq("window3", 16 * m, first=0), hq("window3", 8 * m, first=100, ncpu=2)]
+    md = min(m, 2)   # directed schedules: every trial is the same schedule, more of them adds nothing
+    jobs += [hq("window", 16 * md, first=0), hq("window3", 16 * md, first=0), hq("window3", 8 * md, first=100, ncpu=2)]
     # serial queues inside target-queue hierarchies (sync / async_and_wait recursing through levels)
     jobs += spread(hq, "hier", 16 * m, 2)
     jobs += [Job("hooks", "h_mainq", ["--trials=%d" % (2 * m)], timeout=300, tag="h_mainq")]
@@ -116,7 +117,7 @@ def C03(tier):
     # ASan with stack-use-after-return detection: waiters redirected down the hierarchy live on foreign stacks
     jobs += [hq("hier", 6 * m, first=1000, flavor="asan", scale=50, timeout=600), hq("wl", 8 * m, first=1020, flavor="asan", scale=60, timeout=600),
              hq("wl", 8 * m, first=1040, flavor="asan", scale=60, timeout=600), hq("wl", 6 * m, first=1060, flavor="asan", scale=60, ncpu=4, timeout=600)]
-    jobs += [hw(32 * m), hw(32 * m, flavor="asan")]
+    jobs += [hw(32 * min(m, 2)), hw(32 * min(m, 2), flavor="asan")]
     if tier == "thorough":
         for t in jobs:
             t.timeout = 1800
@@ -144,7 +145,8 @@ def C04(tier):
     jobs += spread(hq, "barrier", 40 * m, 4)
     jobs += [hq("barrier", 8 * m, first=100, ncpu=1, scale=40), hq("barrier", 8 * m, first=200, ncpu=2, scale=60), hq("barrier", 10 * m, first=300, ncpu=4)]
     jobs += spread(hq, "mixed", 16 * m, 2)
-    jobs += [hq("gate", 30 * m, first=0, extra=["--gate-conc=1"]), hq("window", 16 * m, first=0), hq("window3", 16 * m, first=0)]
+    md = min(m, 2)
+    jobs += [hq("gate", 30 * m, first=0, extra=["--gate-conc=1"]), hq("window", 16 * md, first=0), hq("window3", 16 * md, first=0)]
     jobs += [hq("barrier", 6 * m, first=900, flavor="tsan", scale=25, timeout=900, perturb="uniform")]
     jobs += [hq("barrier", 6 * m, first=1000, flavor="asan", scale=40, timeout=600), hq("mixed", 5 * m, first=1020, flavor="asan", scale=40, timeout=600)]
     jobs += [hq("retarget", 8 * m, first=400)]
@@ -181,7 +183,7 @@ def C05(tier):
              hq("mixed", 4 * m, first=960, flavor="tsan", scale=25, timeout=900, perturb="uniform")]
     jobs += [Job("asan", "h_handoff", ["--trials=%d" % (8 * m), "--first=300", "--scale=40"], timeout=600, tag="h_handoff:asan"),
              hq("pingpong", 5 * m, first=1000, flavor="asan", scale=40, timeout=600), hq("wl", 5 * m, first=1020, flavor="asan", scale=50, timeout=600)]
-    jobs += [hw(32 * m), hw(32 * m, flavor="asan")]
+    jobs += [hw(32 * min(m, 2)), hw(32 * min(m, 2), flavor="asan")]
     jobs += [hq("retarget", 8 * m, first=500), hq("retarget", 4 * m, first=550, flavor="tsan", scale=25, timeout=900, perturb="uniform")]
     if tier == "thorough":
         for t in jobs:
@@ -498,7 +500,7 @@ def C17(tier):
              hj("h_block", 3 * m, first=5300, flavor="asan", scale=30, timeout=600), hj("h_block", 2 * m, first=5400, flavor="asan", mode="window", timeout=600),
              Job("asan", "h_data", ["--trials=%d" % (20 * m), "--first=5500"], timeout=600, tag="h_data:asan:c17"),
              hj("h_timer", 2 * m, first=5600, flavor="asan", scale=50, timeout=600)]
-    jobs += [hw(32 * m), hw(32 * m, flavor="asan")]
+    jobs += [hw(32 * min(m, 2)), hw(32 * min(m, 2), flavor="asan")]
     jobs += [hq("retarget", 5 * m, first=600, flavor="asan", scale=40, timeout=600)]
     for j in jobs:
         if j.flavor == "asan" and j.harness in ("h_life", "h_data", "h_queue"):   # the other harnesses keep per-case records alive on purpose
